@@ -315,3 +315,93 @@ Proof.
   unfold abs_state at 1. destruct (vtail _ _ d b) as [stk'|]; [|exact H].
   destruct H as [He [Hne Habs]]. split; [exact He|]. unfold abs_state. now rewrite norm_id.
 Qed.
+
+(* ---------------- phase 3: every reachable state satisfies the invariant; whole sequences ---------------- *)
+Definition good (s : list ventry) : Prop := R s /\ exists acc, Inv (map ce s) (map citem_of acc).
+
+Lemma good_init : good vinit.
+Proof. split; [repeat constructor|]. exists []. apply inv_init. Qed.
+
+Lemma good_step : forall s it s', good s -> vstep s it = Some s' -> good s'.
+Proof.
+  intros s it s' [HR [acc HI]] Hs.
+  destruct (ok_path (vpath it)) eqn:Hok.
+  - pose proof (vstep_refines s it HR Hok) as Href. rewrite Hs in Href. destruct Href as [Hcv HR'].
+    destruct (cvstep_sound _ _ _ _ HI (okitem_names it Hok) Hcv) as [_ HI'].
+    split; [exact HR'|]. exists (acc ++ [it]). rewrite map_app. exact HI'.
+  - unfold vstep in Hs. rewrite (vsplit_bad _ Hok) in Hs. discriminate.
+Qed.
+
+Definition Rl (a b : entry) : Prop := lex (fst b) (fst a) = Lt.
+
+Lemma chain_sorted : forall cs, chain cs -> Sorted Rl cs.
+Proof.
+  induction 1 as [l|d l rest l' Hc IH Hl].
+  - repeat constructor.
+  - constructor; [exact IH|]. constructor. unfold Rl. cbn [fst]. apply lex_prefix_lt. discriminate.
+Qed.
+
+Lemma chain_bottom : forall cs, chain cs -> exists r l0, cs = r ++ [([], l0)].
+Proof.
+  induction 1 as [l|d l rest l' Hc IH Hl].
+  - exists [], l. reflexivity.
+  - destruct IH as [r [l0 E]]. exists ((d ++ [l], l') :: r), l0. rewrite E. reflexivity.
+Qed.
+
+Lemma pcomps_nil : forall p, pcomps p = [] -> p = [].
+Proof.
+  intros [|a p]; [reflexivity|]. unfold pcomps. cbn [comps].
+  destruct (N.eqb a sep); [discriminate|]. destruct (comps p); discriminate.
+Qed.
+
+Lemma good_vinv : forall s, good s -> vinv s.
+Proof.
+  intros s [_ [acc HI]]. pose proof (inv_chain _ _ HI) as Hc. split.
+  - assert (Hss : StronglySorted Rl (map ce s)).
+    { apply Sorted_StronglySorted; [|apply chain_sorted; exact Hc].
+      intros a b c Hab Hbc. unfold Rl in *. eapply lex_trans; eassumption. }
+    clear Hc HI. unfold desc. induction s as [|e s IH]; [constructor|].
+    cbn [map] in Hss. inversion Hss as [|? ? Hs' Hall]; subst. constructor; [apply IH; exact Hs'|].
+    rewrite Forall_map in Hall. eapply Forall_impl; [|exact Hall].
+    intros b Hb. unfold Rl, ce in Hb. cbn [fst] in Hb. rewrite compare_path_pcomps. exact Hb.
+  - destruct (chain_bottom _ Hc) as [r [l0 E]].
+    destruct (exists_last (l := s)) as [s0 [e Es]]; [intro E0; rewrite E0 in E; destruct r; discriminate|].
+    rewrite Es, map_app in E. cbn [map] in E. apply app_inj_tail in E. destruct E as [_ E].
+    unfold ce in E. injection E as E1 E2. apply pcomps_nil in E1.
+    exists s0, (snd e). rewrite Es. destruct e as [d l]. cbn [fst snd] in *. now subst.
+Qed.
+
+(* the translated method folded over a sequence of changes: index of the first rejected change *)
+Fixpoint run_go (v : SrcFns.Validator) (its : list vitem) (i : nat) : option (option nat) :=
+  match its with
+  | [] => Some None
+  | it :: r =>
+    match SrcFns.Validator_HandleChange v (Z.of_N (vkind it)) (vpath it) {| Prims.fi_IsDir := visdir it |} None with
+    | None => None                                  (* no result: out of fuel *)
+    | Some (v', None) => run_go v' r (S i)
+    | Some (_, Some _) => Some (Some i)
+    end
+  end.
+
+Lemma item_of_it : forall it, item_of (Z.of_N (vkind it)) (vpath it) {| Prims.fi_IsDir := visdir it |} = it.
+Proof. intros [k p dflag]. unfold item_of. cbn. now rewrite N2Z.id. Qed.
+
+Lemma run_go_gen : forall its v i, good (abs_state v) -> run_go v its i = Some (vrun (abs_state v) its i).
+Proof.
+  induction its as [|it r IH]; intros v i Hg; [reflexivity|]. cbn [run_go vrun].
+  pose proof (HandleChange_src_eq v (Z.of_N (vkind it)) (vpath it) {| Prims.fi_IsDir := visdir it |} (good_vinv _ Hg)) as H.
+  rewrite item_of_it in H.
+  destruct (SrcFns.Validator_HandleChange v _ _ _ None) as [[v' e]|]; [|contradiction].
+  destruct (vstep (abs_state v) it) as [stk'|] eqn:Es.
+  - destruct H as [-> Habs]. rewrite <- Habs. apply IH. rewrite Habs. eapply good_step; eassumption.
+  - destruct e; [reflexivity|congruence].
+Qed.
+
+Theorem run_go_is_run_validator : forall its,
+  run_go SrcFns.Validator_zero its 0 = Some (run_validator its).
+Proof. intros its. apply (run_go_gen its SrcFns.Validator_zero 0). exact good_init. Qed.
+
+(* C12's main theorem, for the translated code *)
+Corollary translated_validator_accepts_iff_spec : forall its,
+  run_go SrcFns.Validator_zero its 0 = Some (spec_first_bad its).
+Proof. intros its. rewrite run_go_is_run_validator, validator_accepts_iff_spec_proof. reflexivity. Qed.
